@@ -246,6 +246,10 @@ def scenarios(rng, root, base, model):
             sys.argv = argv
             try:
                 mod.main()
+            except SystemExit as e:
+                # an exit status of zero is a normal return: what the calling shell sees as success
+                if e.code not in (0, None):
+                    raise
             finally:
                 sys.argv = old
         return run
@@ -309,6 +313,29 @@ def scenarios(rng, root, base, model):
     sc.append(('mandoline (unknown field)', lambda: Mandoline(sp, fields=['no_such_field'], serial=True, verbose=0).slice(
         normal=0, fformat='return'), [p], [], True))
     sc.append(('point query (unknown field)', lambda: PlotfileCooker(sp)['no_such_field'](0.0, 0.0, 0.0), [p], [], True))
+    # the command line asked to write a plotfile-format slice onto a symbolic link to a directory: the removal of the old
+    # output is refused (an OSError without an error number) - a failure the calling shell must see
+    linkdir = os.path.join(outdir, 'link_target')
+    linkout = os.path.join(outdir, 'link_to_dir')
+
+    def mandoline_cli_onto_link():
+        os.makedirs(linkdir, exist_ok=True)
+        if not os.path.islink(linkout):
+            os.symlink(linkdir, linkout)
+        argv_run('amr_kitchen.mandoline.cli', ['mandoline', sp, '-n', '0', '-v', keys[0], '-s', '-V', '0', '-f', 'plotfile', '-o', linkout])()
+    late = [('mandoline command line (plotfile onto a link to a directory)', mandoline_cli_onto_link, [p], [outdir], True)]
+    # chef asked for an output directory that already exists (made beforehand, or left by an earlier run): it is the
+    # directory written to
+    pre = os.path.join(outdir, 'premade')
+
+    def chef_into_existing():
+        os.makedirs(pre, exist_ok=True)
+        Chef(plotfile=sp, recipe=rpath, outfile=pre, kept_fields=keys[0], serial=True).cook()
+        if not os.path.exists(os.path.join(pre, 'Header')):
+            raise RuntimeError('nothing was written into the requested, existing output directory')
+    late.append(('chef (the output directory exists)', chef_into_existing, [p], [pre], False))
+    # (appended AFTER every other scenario by run_case: the share of the scenarios a seed takes is by position)
+    scenarios.late = late
     return sc, dict(input_spelling=form, output_spelling=outform, explicit=explicit, fields=keys), (pf, keys, p)
 
 
@@ -370,7 +397,7 @@ def run_case(seed):
     thorough = os.environ.get('VERIF_TIER') == 'thorough'
     try:
         scs, info, _ = scenarios(rng, root, base, model)
-        scs = scs + truncated_scenarios(rng, root, base)
+        scs = scs + truncated_scenarios(rng, root, base) + scenarios.late
         pick = [s for k, s in enumerate(scs) if k % 3 == seed % 3]
         for name, run, inputs, allowed, must_raise in pick:
             desc = dict(seed=seed, tool=name, **info)
